@@ -204,12 +204,14 @@ def unrename_value(v, inv):
 def template_grammars():
     """(tag, grammar, {identifier: role}) -- identifiers are distinct across roles."""
     T = ('re', '[a-z]+', False)
-    N = ('apply', ('re', '[0-9]+', False), ('py', 'int'))
+    # the template's own inline Python mentions no global name at all (a user name equal to a builtin
+    # that the *user's* Python calls would be a collision between two user names, not with generated code)
+    N = ('apply', ('re', '[0-9]+', False), ('py', 'lambda ds: ds.__len__()'))
     out = []
     stmts = [
         ('rule', 'start', None, ('star', ('ref', 'Entry'))),
         ('rule', 'Entry', None, ('alt', [('ref', 'Pair'), ('ref', 'Group'), ('call', 'Wrap', [('ref', 'Word'), ('num', '2')]),
-                                        ('ref', 'Bound'), ('ref', 'Word')])),
+                                        ('ref', 'Bound'), ('ref', 'Hoist'), ('ref', 'Tagged'), ('ref', 'Word')])),
         ('class', 'Pair', None, [('field', 'lhs', ('ref', 'Word')), ('field', 'mid', ('alt', [('str', ':'), ('str', '=')])),
                                  ('field', 'rhs', ('alt', [('ref', 'Num'), ('ref', 'Word')])),
                                  ('let', 'hid', ('opt', ('str', '!'))), ('field', 'more', ('star', ('right', ('str', ','), ('ref', 'Num')))),
@@ -218,13 +220,19 @@ def template_grammars():
         ('rule', 'Wrap', ['par', 'cnt'], ('seq', [('str', '<'), ('rep', ('ref', 'par'), None, ('name', 'cnt')), ('str', '>'), ('py', 'cnt')])),
         ('rule', 'Bound', None, ('let', 'var', ('right', ('str', '$'), ('ref', 'Word')),
                                  ('seq', [('opt', ('str', '?')), ('where', ('ref', 'Word'), ('py', 'lambda t: t != var')), ('py', 'var')]))),
+        # bound names used inside expressions that are moved into helper functions: an argument of a
+        # parameterised rule mentioning a let name in a count, and a class field in inline Python
+        ('rule', 'Hoist', None, ('let', 'hv', ('right', ('str', '%'), N), ('call', 'Wrap', [('rep', ('ref', 'Word'), ('name', 'hv'), ('name', 'hv')), ('num', '1')]))),
+        ('class', 'Tagged', None, [('field', 'fopen', ('right', ('str', '&'), ('ref', 'Word'))),
+                                   ('field', 'fbody', ('call', 'Wrap', [('where', ('ref', 'Word'), ('py', 'lambda t: t != fopen')), ('num', '1')]))]),
         ('rule', 'Num', None, N),
         ('rule', 'Word', None, T),
         ('irule', 'Blank', ('re', ' +', False)),
     ]
     roles = {'Entry': 'rule', 'Group': 'rule', 'Num': 'rule', 'Word': 'rule', 'Bound': 'rule', 'Pair': 'class',
              'lhs': 'field', 'mid': 'field', 'rhs': 'field', 'hid': 'let-field', 'more': 'field', 'echo': 'field',
-             'Wrap': 'template', 'par': 'param', 'cnt': 'param', 'var': 'let', 'Blank': 'ignore-rule'}
+             'Wrap': 'template', 'par': 'param', 'cnt': 'param', 'var': 'let', 'Blank': 'ignore-rule',
+             'Hoist': 'rule', 'hv': 'let', 'Tagged': 'class', 'fopen': 'field', 'fbody': 'field'}
     out.append(('main', dict(name=None, extends=None, stmts=stmts), roles))
     stmts2 = [
         ('rule', 'start', None, ('optable', ('ref', 'Atom'), [('mixfix', [('ref', 'Paren')]), ('postfix', [('str', '!')]),
@@ -242,7 +250,7 @@ def template_grammars():
 
 INPUTS = {
     'main': ['', 'a', 'a:1', 'a=b', 'a:1,2,3', 'a:1! b', '(a;b:2;)', '<a b>', '<a>3', '$a b', '$a ? b', '$a a', 'a:1 (b) <c d> $e f',
-             '(a:1,2;(b))', 'a:', '(a', '<a b c>', '$', 'a : 1 , 2'],
+             '(a:1,2;(b))', 'a:', '(a', '<a b c>', '$', 'a : 1 , 2', '%22 <a b>', '%1 <a>', '%1 <>', '&a <b>', '&a <a>', '%22 <a> &x <y>', '<a b>', '<a b>22'],
     'optable': ['1', '1+2', '1+2*3', '-1!', '(1+2)*3', '12x+1', '(1', '1+', '((1))!', '1*(2+3)!'],
 }
 
